@@ -251,7 +251,10 @@ def _probe(tf, cls, kw, rng):
   if cls == "CategoricalCalibration":
     return tf.constant(rng.integers(0, 3, size=(4, u)).astype(np.int32))
   if cls in ("PWLCalibration", "PWLCalibrationImpute"):
-    x = (rng.integers(-16, 80, size=(4, u)) / 16.0).astype(np.float32)
+    # points below, inside and above the keypoint range, whatever its location and scale
+    kp = np.asarray(kw.get("input_keypoints", [0.0, 1.0, 3.0]), dtype=np.float64)
+    span = float(kp[-1] - kp[0])
+    x = (float(kp[0]) + span * (rng.integers(-16, 80, size=(6, u)) / 48.0)).astype(np.float32)
     x[0, 0] = -7.0
     return tf.constant(x)
   if cls == "CDF":
